@@ -727,10 +727,17 @@ func (w *verifWorld) LastSeq(who, what, argPrefix string) int {
 func (w *verifWorld) SetPlan(plan [][]int) { w.rtPlan = plan }
 
 func (w *verifWorld) plannedRuntime() func(p *verifProc) {
+	pk := w.plannedRuntimeK()
 	return func(p *verifProc) {
-		who := p.name
 		k := w.rtStarted
 		w.rtStarted++
+		pk(p, k)
+	}
+}
+
+func (w *verifWorld) plannedRuntimeK() func(p *verifProc, k int) {
+	return func(p *verifProc, k int) {
+		who := p.name
 		var plan []int
 		if k < len(w.rtPlan) {
 			plan = w.rtPlan[k]
@@ -856,7 +863,7 @@ func (w *verifWorld) CheckEventGrammar() {
 			// truthfulness: success only if the runtime of this initialisation reached its next poll
 			reached := false
 			for _, x := range w.log {
-				if x.seq > initStartSeq && x.seq < e.seq && strings.HasPrefix(x.who, "runtime-") && x.what == "next-issued" {
+				if x.seq > initStartSeq && x.seq < e.seq && strings.HasPrefix(x.who, "runtime-") && (x.what == "next-issued" || x.what == "restorenext-issued") {
 					reached = true
 				}
 			}
@@ -953,14 +960,16 @@ func (a *VerifRuntimeAPI) RestoreError(errType string) (int, string) {
 // SetRuntimeScript: script(k, api) is run as the k-th started runtime process; returning false
 // falls back to the planned behaviours.
 func (w *verifWorld) SetRuntimeScript(script func(k int, api *VerifRuntimeAPI) bool) {
-	planned := w.plannedRuntime()
+	planned := w.plannedRuntimeK()
 	w.sup.runtimeScript = func(p *verifProc) {
+		// the index is taken when the process starts (a script that is still parked when
+		// the next generation starts must not be run a second time)
 		k := w.rtStarted
+		w.rtStarted++
 		if script(k, &VerifRuntimeAPI{w: w, p: p}) {
-			w.rtStarted++
 			return
 		}
-		planned(p)
+		planned(p, k)
 	}
 }
 
@@ -972,6 +981,11 @@ type VerifExtAPI struct {
 }
 
 func (a *VerifExtAPI) Dead() bool { return a.p != nil && a.p.dead }
+func (a *VerifExtAPI) Exit(status int32) {
+	if a.p != nil {
+		a.w.sup.exit(a.p, status, 0)
+	}
+}
 func (a *VerifExtAPI) Register(name string, events []string) (int, string, string) {
 	r := a.w.extRegister(a.who, name, events)
 	return r.status, r.hdr.Get("Lambda-Extension-Identifier"), string(r.body)
